@@ -217,10 +217,79 @@ func normalizeByInlining(repo string, base map[string][]byte) (map[string][]byte
 		return nil, nil
 	}
 	// the result must type-check
-	if _, err := loadSyntaxOnly(repo, overlay); err != nil {
+	P, err := loadSyntaxOnly(repo, overlay)
+	if err != nil {
 		return nil, append(log, "normalisation abandoned: the inlined program does not type-check: "+err.Error())
 	}
+	// helpers unknown to the rules that nothing refers to any more are dropped (they would
+	// otherwise be analysed as if they were entry points)
+	if pruned, plog := pruneDead(P, known, overlay); pruned != nil {
+		if _, err := loadSyntaxOnly(repo, pruned); err == nil {
+			return pruned, append(log, plog...)
+		}
+	}
 	return overlay, log
+}
+
+func pruneDead(P *Program, known *knownSet, overlay map[string][]byte) (map[string][]byte, []string) {
+	used := map[types.Object]bool{}
+	for _, p := range repoPkgs(P) {
+		for _, o := range p.TypesInfo.Uses {
+			if f, ok := o.(*types.Func); ok {
+				used[originFunc(f)] = true
+			}
+		}
+		for _, s := range p.TypesInfo.Selections {
+			if f, ok := s.Obj().(*types.Func); ok {
+				used[originFunc(f)] = true
+			}
+		}
+	}
+	out := map[string][]byte{}
+	for k, v := range overlay {
+		out[k] = v
+	}
+	var log []string
+	for _, p := range repoPkgs(P) {
+		for _, f := range p.Syntax {
+			name := P.Fset.File(f.Pos()).Name()
+			if strings.HasSuffix(name, "_test.go") {
+				continue
+			}
+			var rs []repl
+			for _, d := range f.Decls {
+				fd, ok := d.(*ast.FuncDecl)
+				if !ok || fd.Body == nil || fd.Name.IsExported() || fd.Name.Name == "init" || fd.Name.Name == "main" {
+					continue
+				}
+				fn, _ := p.TypesInfo.Defs[fd.Name].(*types.Func)
+				if fn == nil || used[fn] || known.funcs[fn.FullName()] {
+					continue
+				}
+				from := fd.Pos()
+				if fd.Doc != nil {
+					from = fd.Doc.Pos()
+				}
+				rs = append(rs, repl{P.Fset.Position(from).Offset, P.Fset.Position(fd.End()).Offset, ""})
+				log = append(log, "unreferenced helper "+fn.FullName()+" dropped")
+			}
+			if len(rs) > 0 {
+				src, ok := out[name]
+				if !ok {
+					b, err := os.ReadFile(name)
+					if err != nil {
+						continue
+					}
+					src = b
+				}
+				out[name] = applyRepls(src, rs)
+			}
+		}
+	}
+	if len(log) == 0 {
+		return nil, nil
+	}
+	return out, log
 }
 
 func loadSyntaxOnly(repo string, overlay map[string][]byte) (*Program, error) {
@@ -408,6 +477,7 @@ func (c *callerCtx) target(call *ast.CallExpr) *declInfo {
 	if callee == nil || callee.Pkg() == nil || callee.Pkg() != c.pkg.Types {
 		return nil
 	}
+	callee = originFunc(callee)
 	if callee == c.fn {
 		return nil
 	}
@@ -416,8 +486,24 @@ func (c *callerCtx) target(call *ast.CallExpr) *declInfo {
 		return nil
 	}
 	sig := callee.Type().(*types.Signature)
-	if sig.Variadic() || sig.TypeParams() != nil || sig.RecvTypeParams() != nil {
+	if sig.Variadic() || sig.TypeParams() != nil {
 		return nil
+	}
+	if rtp := sig.RecvTypeParams(); rtp != nil {
+		// methods of one generic type: the type parameters must carry the same names in both declarations
+		mine := c.fn.Type().(*types.Signature).RecvTypeParams()
+		if mine == nil || mine.Len() != rtp.Len() {
+			return nil
+		}
+		for i := 0; i < rtp.Len(); i++ {
+			if mine.At(i).Obj().Name() != rtp.At(i).Obj().Name() {
+				return nil
+			}
+		}
+		mr, cr := c.fn.Type().(*types.Signature).Recv(), sig.Recv()
+		if mr == nil || cr == nil || namedOf(mr.Type()) == nil || namedOf(mr.Type()).Origin() != namedOf(cr.Type()).Origin() {
+			return nil
+		}
 	}
 	if call.Ellipsis.IsValid() || len(call.Args) != sig.Params().Len() {
 		return nil
@@ -475,9 +561,6 @@ func (c *callerCtx) bodyOK(di *declInfo) bool {
 			default:
 				if obj.Parent() == di.pkg.Types.Scope() || obj.Parent() == types.Universe {
 					c.free = append(c.free, obj)
-				}
-				if _, isTP := obj.Type().(*types.TypeParam); isTP {
-					ok = false
 				}
 			}
 		}
@@ -552,9 +635,7 @@ func (c *callerCtx) typeStr(t types.Type) (string, bool) {
 		}
 		return false
 	}
-	if hasTP(t) {
-		return "", false
-	}
+	_ = hasTP
 	s := types.TypeString(t, func(p *types.Package) string {
 		q := c.qual(p)
 		if q == "\x00" {
@@ -898,6 +979,14 @@ func (c *callerCtx) tryStmt(s ast.Stmt, inList bool) (string, bool) {
 	return sb.String(), true
 }
 
+func namedOf(t types.Type) *types.Named {
+	if p, ok := t.(*types.Pointer); ok {
+		t = p.Elem()
+	}
+	n, _ := t.(*types.Named)
+	return n
+}
+
 func (c *callerCtx) sameResults(sig *types.Signature) bool {
 	mine := c.fn.Type().(*types.Signature).Results()
 	if mine.Len() != sig.Results().Len() {
@@ -950,7 +1039,7 @@ func (c *callerCtx) binding(call *ast.CallExpr, di *declInfo) (string, bool) {
 			pt := sig.Params().At(i).Type()
 			at := info.TypeOf(arg)
 			txt := c.text(arg.Pos(), arg.End())
-			if at == nil || !types.Identical(at, pt) {
+			if tv := info.Types[arg]; at == nil || !types.Identical(at, pt) || tv.Value != nil || tv.IsNil() {
 				ts, ok := c.typeStr(pt)
 				if !ok {
 					return "", false
@@ -1175,7 +1264,7 @@ func (c *callerCtx) substIn(e ast.Expr) (string, bool) {
 			pt := sig.Params().At(i).Type()
 			at := info.TypeOf(arg)
 			txt := "(" + c.text(arg.Pos(), arg.End()) + ")"
-			if at == nil || !types.Identical(at, pt) {
+			if tv := info.Types[arg]; at == nil || !types.Identical(at, pt) || tv.Value != nil || tv.IsNil() {
 				ts, ok := c.typeStr(pt)
 				if !ok {
 					return "", false
@@ -1200,7 +1289,7 @@ func (c *callerCtx) substIn(e ast.Expr) (string, bool) {
 	body := string(applyRepls(di.src[base:off(rexpr.End())], rs))
 	rt := sig.Results().At(0).Type()
 	et := dinfo.TypeOf(rexpr)
-	if et == nil || !types.Identical(et, rt) {
+	if tv := dinfo.Types[rexpr]; et == nil || !types.Identical(et, rt) || tv.Value != nil || tv.IsNil() {
 		ts, ok := c.typeStr(rt)
 		if !ok {
 			return "", false
